@@ -356,7 +356,7 @@ impl Run {
         let progress = AtomicU64::new(0);
 
         let outs: Vec<ShardOut<C>> = std::thread::scope(|scope| {
-            // watchdog: a case that runs for more than 120 s makes the run inconclusive (exit 2)
+            // watchdog: a case that runs for more than 600 s makes the run inconclusive (exit 2)
             let wd = scope.spawn(|| {
                 let mut ticks = 0u64;
                 while !done.load(Ordering::Relaxed) {
@@ -368,10 +368,10 @@ impl Run {
                     for (i, slot) in current.iter().enumerate() {
                         let g = slot.lock().unwrap();
                         if let Some((c, since)) = &*g {
-                            if since.elapsed().as_secs() > 120 {
-                                let path = write_replay(prop, name, c, "hang", Some("case exceeded the 120 s watchdog"));
+                            if since.elapsed().as_secs() > 600 {
+                                let path = write_replay(prop, name, c, "hang", Some("case exceeded the 600 s watchdog"));
                                 println!(
-                                    "INCONCLUSIVE property={prop} sub={name} shard={i}: a case ran for more than 120 s (saved to {})",
+                                    "INCONCLUSIVE property={prop} sub={name} shard={i}: a case ran for more than 600 s (saved to {})",
                                     path.display()
                                 );
                                 std::process::exit(2);
